@@ -3,6 +3,7 @@ package worlds
 import (
 	"bytes"
 	"compress/flate"
+	"compress/zlib"
 	"compress/gzip"
 	"encoding/json"
 	"fmt"
@@ -52,6 +53,7 @@ type logEx struct {
 	reqKind    string
 	reqCT      string
 	reqCE      string
+	odd        string // an unusual-but-legal input only the twin comparison (C15) is asked to judge
 	formPairs  [][2]string
 	parts      []mpPart
 	queryPairs [][2]string
@@ -80,6 +82,16 @@ func defl(b []byte) []byte {
 	return buf.Bytes()
 }
 
+// deflZ is the "deflate" content coding as HTTP defines it: the zlib container (RFC 7230 section
+// 4.2.2). defl is the bare DEFLATE stream that some senders use under the same name.
+func deflZ(b []byte) []byte {
+	var buf bytes.Buffer
+	w, _ := zlib.NewWriterLevel(&buf, zlib.BestSpeed)
+	w.Write(b)
+	w.Close()
+	return buf.Bytes()
+}
+
 func binBytes(k *kernel.K, n int) []byte {
 	b := make([]byte, n)
 	for i := range b {
@@ -91,7 +103,7 @@ func binBytes(k *kernel.K, n int) []byte {
 	return b
 }
 
-func genLogEx(k *kernel.K, id, conn int, last bool) *logEx {
+func genLogEx(k *kernel.K, id, conn int, last bool, odd bool) *logEx {
 	w := k.W
 	e := &logEx{id: id, conn: conn}
 	sizes := []int{0, 1, 17, 300, 4096, 5000, 70000, 1 << 20}
@@ -142,6 +154,12 @@ func genLogEx(k *kernel.K, id, conn int, last bool) *logEx {
 			parts = append(parts, url.QueryEscape(p[0])+"="+url.QueryEscape(p[1]))
 		}
 		entity = []byte(strings.Join(parts, "&"))
+		if odd && w.Chance(1, 6) {
+			// legal bytes under this content type that a strict parser rejects
+			entity = []byte([]string{"a=1;b=2", "k=%zz&x=1", "%"}[w.Draw(3)])
+			e.odd = "form_unparseable"
+			k.Probe("odd_form_unparseable")
+		}
 	case "multipart":
 		e.reqCT = "multipart/form-data; boundary=XbOuNdArY7"
 		var buf bytes.Buffer
@@ -170,6 +188,9 @@ func genLogEx(k *kernel.K, id, conn int, last bool) *logEx {
 			e.reqCE = []string{"gzip", "deflate"}[w.Draw(2)]
 			if e.reqCE == "gzip" {
 				entity = gz(entity)
+			} else if w.Chance(1, 2) {
+				entity = deflZ(entity)
+				k.Probe("deflate_zlib_container")
 			} else {
 				entity = defl(entity)
 			}
@@ -211,9 +232,25 @@ func genLogEx(k *kernel.K, id, conn int, last bool) *logEx {
 		body = gz(plain)
 	case 2:
 		e.respCE = "deflate"
-		body = defl(plain)
+		if w.Chance(1, 2) {
+			body = deflZ(plain)
+			k.Probe("deflate_zlib_container")
+		} else {
+			body = defl(plain)
+		}
 	case 3:
 		e.respCE = "br" // a coding the proxy does not know: bytes are left alone
+	}
+	if odd && e.respCE == "gzip" && w.Chance(1, 5) {
+		// labelled gzip, but the bytes are not a gzip stream (a mislabelled or truncated entity is
+		// still the origin's response and has to be relayed as it is)
+		if w.Chance(1, 2) {
+			body = plain
+		} else if len(body) > 12 {
+			body = body[:len(body)-9]
+		}
+		e.odd = "resp_coding_undecodable"
+		k.Probe("odd_resp_coding_undecodable")
 	}
 	if e.respCT != "" {
 		rs.Header = append(rs.Header, wire.HF{Name: "Content-Type", Value: e.respCT})
@@ -473,7 +510,7 @@ func runLog(k *kernel.K, focus string) {
 	for ci := 0; ci < nconn; ci++ {
 		nreq := w.Range(1, 4)
 		for j := 0; j < nreq; j++ {
-			exs = append(exs, genLogEx(k, id, ci, j == nreq-1))
+			exs = append(exs, genLogEx(k, id, ci, j == nreq-1, focus == "C15"))
 			id++
 		}
 	}
